@@ -15,7 +15,7 @@ from ..astutil import (assigned_targets, call_name, calls_in, const_value, find_
 from ..astutil import inline_single_defs
 from ..frontend import AnalysisError, Program, Module, set_parents, walk_function, walk_stmts
 from ..nf import RF, NFUnsupported, to_nf, _subst_atom
-from ..peval import Closure, call_closure, exec_block
+from ..peval import Closure, call_closure, exec_block, module_env
 from ..report import norm_text
 from ..witness import witness, twin
 
@@ -396,7 +396,7 @@ def _r5_mapping_coords(ctx):
     gd = [c for c in calls_in(f.node) if (call_name(c) or "").endswith("griddata")]
     if len(gd) != 1 or len(gd[0].args) < 3:
         raise AnalysisError("Meshmapper.process: griddata call not found")
-    src, tgt = gd[0].args[0], gd[0].args[2]
+    src, tgt = inline_single_defs(f.node, gd[0].args[0]), inline_single_defs(f.node, gd[0].args[2])
     if not (isinstance(src, ast.Subscript) and isinstance(tgt, ast.Subscript)):
         raise AnalysisError("Meshmapper.process: source / target points are not column selections")
     ks, kt = src.slice, tgt.slice
@@ -579,7 +579,7 @@ def _r2_jacobian(ctx):
         used = [s for s in single.node.body if isinstance(s, ast.Assign) and is_self_attr(s.value, "_dphi_a_dxi_j")]
         if not stored or not used:
             raise AnalysisError("%s: ansatz derivative is not handed over through self._dphi_a_dxi_j" % shape)
-        cl = Closure(inner, {})
+        cl = Closure(inner, module_env(init.module.tree))
         xi = tuple(RF.sym("xi%d" % (d + 1)) for d in range(3))
         dphi = {}
         try:
